@@ -59,6 +59,7 @@ type ctxSpec struct {
 	labelTok map[string]bool
 	nullable bool
 	altGroups [][]string // for alternations: per alternative, the mandatory element names
+	sumGroups [][]string // mandatory groups of single-element alternatives: the counts of these elements sum to >= 1 each
 }
 
 type TreeSpec struct {
@@ -585,6 +586,26 @@ func loadTreeSpec(path string) *TreeSpec {
 					cs.altGroups = groups
 				}
 			}
+			// mandatory (x | y | ...) groups inside a single sequence: count(x)+count(y)+... >= 1
+			if len(alts) == 1 {
+				for _, el := range alts[0].elems {
+					if el.kind != "group" || el.min < 1 {
+						continue
+					}
+					var names []string
+					ok := true
+					for _, a := range el.alts {
+						if len(a.elems) == 1 && (a.elems[0].kind == "token" || a.elems[0].kind == "rule") && a.elems[0].min >= 1 {
+							names = append(names, a.elems[0].name)
+						} else {
+							ok = false
+						}
+					}
+					if ok && len(names) > 1 {
+						cs.sumGroups = append(cs.sumGroups, names)
+					}
+				}
+			}
 			ts.ctxs[typeName] = cs
 		}
 		if labelled {
@@ -768,6 +789,15 @@ func (ts *TreeSpec) accessor(e *Engine, s *State, x ssa.CallInstruction, fn *ssa
 		n := App("acc.len."+cs.typeName+"."+elem, SInt, ctx)
 		s.assume(Le(Int(int64(c.min)), n))
 		s.assume(Ne(arr, Zero))
+		for _, g := range cs.sumGroups {
+			var sum *Term = Zero
+			for _, nm := range g {
+				cnt := App("acc.len."+cs.typeName+"."+nm, SInt, ctx)
+				s.assume(Le(Zero, cnt))
+				sum = Add(sum, cnt)
+			}
+			s.assume(Le(Int(1), sum))
+		}
 		e.arrSpecs[arr] = func(idx *Term) Value {
 			node := App("acc.elem", SInt, arr, idx)
 			if isTok {
@@ -857,6 +887,9 @@ func (ts *TreeSpec) labelPresent(cs *ctxSpec, lbl string, ctx *Term) *Term {
 func (ts *TreeSpec) tokenFacts(e *Engine, s *State, tok string, text *Term, cond *Term) {
 	if m := ts.tokMin[tok]; m > 0 {
 		s.assume(Implies(cond, Le(Int(int64(m)), StrLen(text))))
+	}
+	if tok == "DIGITS" {
+		s.assume(Implies(cond, App("isdigits", SBool, text)))
 	}
 	if lits, ok := ts.tokLits[tok]; ok && len(lits) > 0 && len(lits) <= 8 {
 		var ds []*Term
